@@ -25,10 +25,10 @@ func init() {
 				Procs:    16,
 				Rule: "case = (constructor, operation history over Add/Push/Pop/PopLast/Clear); three generators: " +
 					"(a) scripted rotate-then-grow scenarios for every capacity 1..24 x every head position x {Add,Push} (seed-independent), and for every capacity 25..1400 (9000 thorough) x three head positions, continued to the next regrow, with constant-time observations on every step and the full comparison after every regrow, " +
-					"and at 262143..1.2 M elements (5 M thorough), one per block; (b) exhaustive enumeration of all histories up to a length bound over {Add,Push,Pop,PopLast} for preallocated sizes 0..4, " +
+					"and at 262143..1.2 M elements (5 M thorough), one per block; (a2) for seven element types of one to four bytes (byte, int8, int16, int32, float32, [3]byte, a two-byte struct) every history of length 6 over {Add,Push,Pop,PopLast,Clear} from the zero value, New and NewSize(0,1,2,3,5), fully compared after every op; (b) exhaustive enumeration of all histories up to a length bound over {Add,Push,Pop,PopLast} for preallocated sizes 0..4, " +
 					"(c) PRNG histories of 20..300 ops with phase-switching op mixes, (d) long-lived queues: one instance carries 300 000 (1.2 M thorough) operations with its length wandering between 0 and a few hundred. After EVERY op: Each with read-only calls (Slice, Peek, Front, Len, Each) made from inside its loop body - before the monitor reads anything else -, Len, IsEmpty, Front, Slice (and scribbling over the returned slice), Each (with early stop), Peek(n) for all n in [-Len-2, Len+1] and for offsets far out of range whose low 8..62 bits look like a valid offset. " +
 					"distinct = distinct (constructor, history) hashes; non-trivial = the history contained at least one wrap of the ring indices or a regrow while head > 0 (seen through the VerifState hook)",
-				Required:     []string{"rotate_then_grow_add", "rotate_then_grow_push", "backward_wrap_push", "forward_wrap_add", "pop_to_empty", "steps", "large_capacity_scenarios", "element_type_checks", "sparse_observation_histories", "concurrent_instance_histories", "long_lived_queue_runs", "very_large_queues", "shared_reader_rounds", "fill_then_drain_scenarios"},
+				Required:     []string{"rotate_then_grow_add", "rotate_then_grow_push", "backward_wrap_push", "forward_wrap_add", "pop_to_empty", "steps", "large_capacity_scenarios", "element_type_checks", "sparse_observation_histories", "concurrent_instance_histories", "long_lived_queue_runs", "very_large_queues", "shared_reader_rounds", "fill_then_drain_scenarios", "small_element_type_histories"},
 				Exhaustive:   true,
 				Assumptions:  []string{"reference model: Go slice with append/prepend/pop semantics", "hook queue.VerifState used for reach counters only, never for verdicts"},
 				CoverPkgs:    []string{"github.com/creachadair/mds/queue", "github.com/creachadair/mds/slice"},
@@ -657,6 +657,20 @@ func runC07(c *fw.Ctx) {
 		}
 		c.Add("element_type_checks", 1)
 	}
+	if c.Block == 0 && c.Begin(60001) {
+		// element types smaller than a machine word: the first allocation that
+		// append makes for them has more than one slot, so the ring geometry after
+		// growth from nothing differs from that of Queue[int] (seeded change C07w)
+		n := 0
+		n += c07small(c, "byte", func(i int) byte { return byte(i%255 + 1) })
+		n += c07small(c, "int8", func(i int) int8 { return int8(i%127 + 1) })
+		n += c07small(c, "int16", func(i int) int16 { return int16(i + 1) })
+		n += c07small(c, "int32", func(i int) int32 { return int32(i + 1) })
+		n += c07small(c, "float32", func(i int) float32 { return float32(i) + 0.5 })
+		n += c07small(c, "[3]byte", func(i int) [3]byte { return [3]byte{byte(i + 1), byte(i >> 8), 7} })
+		n += c07small(c, "struct{a,b uint8}", func(i int) struct{ a, b uint8 } { return struct{ a, b uint8 }{uint8(i + 1), uint8(i >> 8)} })
+		c.Add("small_element_type_histories", int64(n))
+	}
 	idx = 100000
 
 	// (b) exhaustive enumeration over {Add,Push,Pop,PopLast} up to length L
@@ -841,4 +855,148 @@ func runC07(c *fw.Ctx) {
 		}
 		c.Add("long_lived_queue_runs", 1)
 	}
+}
+
+// c07small runs, for one element type, every history of length 6 over
+// {Add,Push,Pop,PopLast,Clear} from every kind of constructor and compares the
+// queue with a reference slice after every operation. mk must give distinct
+// non-zero values for 0..5. It returns the number of histories run.
+func c07small[T comparable](c *fw.Ctx, name string, mk func(int) T) int {
+	const L = 6
+	total := 1
+	for i := 0; i < L; i++ {
+		total *= 5
+	}
+	var zero T
+	count := 0
+	ops := make([]c07op, L)
+	for _, ctor := range []int{-2, -1, 0, 1, 2, 3, 5} {
+		for code := 0; code < total; code++ {
+			x := code
+			for i := range ops {
+				ops[i] = c07op(x % 5)
+				x /= 5
+			}
+			var q *queue.Queue[T]
+			switch ctor {
+			case -2:
+				q = new(queue.Queue[T])
+			case -1:
+				q = queue.New[T]()
+			default:
+				q = queue.NewSize[T](ctor)
+			}
+			var ref []T
+			bad := ""
+			done := 0
+			ok, pv, stack := fw.Try(func() {
+				for i, op := range ops {
+					v := mk(i)
+					switch op {
+					case qAdd:
+						q.Add(v)
+						ref = append(ref, v)
+					case qPush:
+						q.Push(v)
+						ref = append([]T{v}, ref...)
+					case qPop:
+						got, gok := q.Pop()
+						want, wok := zero, len(ref) > 0
+						if wok {
+							want, ref = ref[0], ref[1:]
+						}
+						if got != want || gok != wok {
+							bad = fmt.Sprintf("Pop=(%v,%v) want (%v,%v)", got, gok, want, wok)
+						}
+					case qPopLast:
+						got, gok := q.PopLast()
+						want, wok := zero, len(ref) > 0
+						if wok {
+							want, ref = ref[len(ref)-1], ref[:len(ref)-1]
+						}
+						if got != want || gok != wok {
+							bad = fmt.Sprintf("PopLast=(%v,%v) want (%v,%v)", got, gok, want, wok)
+						}
+					case qClear:
+						q.Clear()
+						ref = nil
+					}
+					done = i + 1
+					if bad != "" {
+						return
+					}
+					if q.Len() != len(ref) || q.IsEmpty() != (len(ref) == 0) {
+						bad = fmt.Sprintf("Len=%d IsEmpty=%v want %d elements", q.Len(), q.IsEmpty(), len(ref))
+						return
+					}
+					sl := q.Slice()
+					if len(sl) != len(ref) {
+						bad = fmt.Sprintf("Slice=%v want %v", sl, ref)
+						return
+					}
+					for j := range ref {
+						if sl[j] != ref[j] {
+							bad = fmt.Sprintf("Slice=%v want %v", sl, ref)
+							return
+						}
+						if p, pok := q.Peek(j); !pok || p != ref[j] {
+							bad = fmt.Sprintf("Peek(%d)=(%v,%v) want (%v,true)", j, p, pok, ref[j])
+							return
+						}
+						if p, pok := q.Peek(j - len(ref)); !pok || p != ref[j] {
+							bad = fmt.Sprintf("Peek(%d)=(%v,%v) want (%v,true)", j-len(ref), p, pok, ref[j])
+							return
+						}
+					}
+					if p, pok := q.Peek(len(ref)); pok || p != zero {
+						bad = fmt.Sprintf("Peek(%d)=(%v,%v) want (zero,false)", len(ref), p, pok)
+						return
+					}
+					if p, pok := q.Peek(-len(ref) - 1); pok || p != zero {
+						bad = fmt.Sprintf("Peek(%d)=(%v,%v) want (zero,false)", -len(ref)-1, p, pok)
+						return
+					}
+					wantFront := zero
+					if len(ref) > 0 {
+						wantFront = ref[0]
+					}
+					if f := q.Front(); f != wantFront {
+						bad = fmt.Sprintf("Front=%v want %v", f, wantFront)
+						return
+					}
+					k := 0
+					q.Each(func(e T) bool {
+						if k >= len(ref) || e != ref[k] {
+							bad = fmt.Sprintf("Each yields %v at step %d, reference %v", e, k, ref)
+							return false
+						}
+						k++
+						return true
+					})
+					if bad == "" && k != len(ref) {
+						bad = fmt.Sprintf("Each yields %d elements, want %d", k, len(ref))
+					}
+					if bad != "" {
+						return
+					}
+				}
+			})
+			count++
+			if ok && bad == "" {
+				continue
+			}
+			names := make([]string, 0, done)
+			for _, op := range ops[:min(done+1, L)] {
+				names = append(names, c07names[op])
+			}
+			in := map[string]any{"element_type": name, "ctor": ctor, "ops": names, "values": "mk(i) for the i-th operation"}
+			if !ok {
+				c.FailKind("panic", in, "Queue[%s]: panic after %d ops: %v\n%s", name, done, pv, stack)
+			} else {
+				c.Fail(in, "Queue[%s] (ctor %d) after %d ops: %s", name, ctor, done, bad)
+			}
+			return count
+		}
+	}
+	return count
 }
